@@ -307,6 +307,18 @@ func c10RefServer13(rc *RunCtx, p *C10Params, cfg DataCfg) {
 		s.Probe("client-certificate-verify-checked-by-reference-server")
 	}
 	s.Probe("client-finished-checked-by-reference-server")
+	if st, okst := pair.Client.ConnectionState(); okst {
+		for li, label := range []string{"EXTRACTOR-dtls_srtp", "EXPERIMENTAL-verif"} {
+			ln := []int{47, 1, 32, 33, 48, 49, 64, 97, 255}[(len(p.Sizes)+li*4+p.Forge)%9]
+			got, eerr := st.ExportKeyingMaterial(label, nil, ln)
+			if want := ref.Exporter(label, ln); eerr != nil || !bytes.Equal(got, want) {
+				rc.Violate("exporter-differs:13", "ExportKeyingMaterial(%q, %d bytes) on the DTLS 1.3 client = %x (err %v); the RFC 8446 7.5 exporter over the reference server's exporter_master_secret gives %x", label, ln, got, eerr, want)
+
+				return
+			}
+		}
+		s.Probe("exporter13-equals-reference")
+	}
 	s.Probe("handshake-with-reference-server")
 	rd := pair.StartReader("c")
 	var toClient [][]byte
